@@ -51,15 +51,17 @@ struct Gen
 	int n;
 	bool integer = false;	  // all entries small integers
 	bool structured = false;   // permutation / zero or tiny diagonal / triangular: pivoting structure matters
+	bool exactly_singular = false;	// singular over the reals by construction (also for non-integer entries)
+	bool zero_line = false;			// ... because a whole row or column is zero (every expansion and every elimination sees an exact zero)
 	std::string kind;
 };
-Gen gen_square(Ctx& c, int nmax)
+Gen gen_square(Ctx& c, int nmax, int force_n = 0)
 {
 	Src& s = c.s;
 	Gen g;
-	int n = (int) s.range(1, nmax);
+	int n = force_n > 0 ? force_n : (int) s.range(1, nmax);
 	g.n	  = n;
-	int kind = s.pick({3, 3, 2, 3, 2, 1, 2, 3});
+	int kind = s.pick({3, 3, 2, 3, 2, 1, 2, 3, 1, 1});
 	Rows a(n, std::vector<double>(n, 0.0));
 	switch(kind)
 	{
@@ -167,6 +169,55 @@ Gen gen_square(Ctx& c, int nmax)
 			g.kind		 = "rank_deficient";
 			break;
 		}
+		case 8:
+		{	// non-integer entries, singular over the reals: a duplicated or zero row (column); every elimination or expansion meets it
+			for(auto& r : a)
+				for(auto& x : r)
+					x = s.uniform(-1, 1);
+			if(n == 1)
+			{
+				a[0][0]		= 0;
+				g.zero_line = true;
+			}
+			else
+			{
+				int t = (int) s.range(0, n - 1), u = (int) s.range(0, n - 2);
+				if(u >= t)
+					u++;
+				bool zero = s.chance(0.4);
+				g.zero_line = zero;
+				for(int j = 0; j < n; j++)
+					a[t][j] = zero ? 0.0 : a[u][j];
+				if(s.coin())
+				{
+					Rows b(n, std::vector<double>(n));
+					for(int i = 0; i < n; i++)
+						for(int j = 0; j < n; j++)
+							b[j][i] = a[i][j];
+					a = b;
+				}
+			}
+			g.structured	   = true;
+			g.exactly_singular = true;
+			g.kind			   = "rank_deficient_real";
+			break;
+		}
+		case 9:
+		{	// leading block nearly singular by cancellation: row 1 = row 0 * (1 + tiny) in the first k columns, generic elsewhere
+			for(auto& r : a)
+				for(auto& x : r)
+					x = s.uniform(-1, 1);
+			if(n >= 3)
+			{
+				int k		= (int) s.range(2, n - 1);
+				double tiny = std::pow(10.0, s.uniform(-15, -8));
+				for(int j = 0; j < k; j++)
+					a[1][j] = a[0][j] * (1 + tiny);
+			}
+			g.structured = true;
+			g.kind		 = "leading_block_cancellation";
+			break;
+		}
 		default:
 		{	// graded condition number: Q1 * diag(sigma) * Q2, cond up to 1e8, overall scale 10^[-3,3]
 			LRows q1 = gen_orthogonal(s, n, 2 * n), q2 = gen_orthogonal(s, n, 2 * n);
@@ -178,6 +229,15 @@ Gen gen_square(Ctx& c, int nmax)
 			g.kind = "graded_condition";
 			break;
 		}
+	}
+	// overall magnitude: any scale at which the determinant itself stays inside the double range (|log10| <= 250/n per entry)
+	if(!g.integer && s.chance(0.15))
+	{
+		double k = s.uniform(-250.0 / n, 250.0 / n), f = std::pow(10.0, k);
+		for(auto& r : a)
+			for(auto& x : r)
+				x *= f;
+		g.kind += "_rescaled";
 	}
 	g.a = a;
 	return g;
@@ -200,16 +260,14 @@ VCLAUSE(determinant, 300, 12000, 300000, "n >= 3 and the matrix has pivoting str
 	long double scale = std::min(row_scale(L), row_scale(l_transpose(L)));
 	long double ref	  = g.integer ? laplace(L) : l_det(L);
 	double tol		  = (double) (8.0L * n * EPS * scale);
-	if(g.integer)
-	{
-		VCHECK(det == (double) ref, "integer matrix: Determinant()=" << det << " exact value " << (double) ref);
-		VCHECK(detT == (double) ref, "integer matrix: det(A^T)=" << detT << " exact value " << (double) ref);
-	}
-	else
-	{
-		VCLOSE(c, "det_vs_LU", det, (double) ref, tol, "Determinant vs pivoted LU in long double");
-		VCLOSE(c, "det_transpose", detT, det, 2 * tol, "det(A^T) vs det(A)");
-	}
+	// (integer matrices: the reference is the exact expansion; the statement promises agreement to rounding, so an elimination-based
+	// determinant that returns 5.999999999999999 is right; exactness is counted, not demanded)
+	VCLOSE(c, "det_vs_LU", det, (double) ref, tol, (g.integer ? "Determinant vs exact integer expansion" : "Determinant vs pivoted LU in long double"));
+	VCLOSE(c, "det_transpose", detT, det, 2 * tol, "det(A^T) vs det(A)");
+	if(g.integer && det == (double) ref)
+		c.cls("integer_determinant_exact");
+	if(g.exactly_singular)
+		c.cls("singular_over_the_reals");
 	VCHECK(inv == (det != 0.0), "Invertible()=" << inv << " but Determinant()=" << det);
 	// triangular: product of the diagonal
 	if(g.kind == "upper_triangular" || g.kind == "lower_triangular" || g.kind == "diagonal")
@@ -229,15 +287,11 @@ VCLAUSE(determinant, 300, 12000, 300000, "n >= 3 and the matrix has pivoting str
 		std::swap(b[r1], b[r2]);
 		double dets = 0;
 		VMUST_RETURN("Determinant after a row swap", dets = Matrix(b).Determinant());
-		if(g.integer)
-			VCHECK(dets == -det, "row swap (" << r1 << "," << r2 << "): " << dets << " vs " << -det);
-		else
-			VCLOSE(c, "det_rowswap", dets, -det, 2 * tol, "row swap (" << r1 << "," << r2 << ") must negate the determinant");
+		VCLOSE(c, "det_rowswap", dets, -det, 2 * tol, "row swap (" << r1 << "," << r2 << ") must negate the determinant");
 	}
 	// multiplicative
 	{
-		Gen h = gen_square(c, n);
-		if(h.n == n)
+		Gen h = gen_square(c, n, n);
 		{
 			LRows LB = to_l(h.a);
 			Matrix B(h.a);
@@ -249,10 +303,11 @@ VCLAUSE(determinant, 300, 12000, 300000, "n >= 3 and the matrix has pivoting str
 					for(int k = 0; k < n; k++)
 						absab[i][j] += fabsl(L[i][k] * LB[k][j]);
 			long double s2 = row_scale(absab);
+			if(!(s2 < 1e290L))
+				throw Discard();   // generator: the product of two rescaled matrices leaves the range in which its determinant is a double
 			long double refp = (g.integer ? laplace(L) : l_det(L)) * (h.integer ? laplace(LB) : l_det(LB));
 			VCLOSE(c, "det_multiplicative", detab, (double) refp, (double) (16.0L * n * n * EPS * s2), "det(A*B) vs det(A)*det(B), B kind=" << h.kind << " B=" << show(h.a));
-			if(g.integer && h.integer && n <= 4)
-				VCHECK(detab == det * detb, "integer matrices: det(A*B)=" << detab << " det(A)*det(B)=" << det * detb);
+			(void) detb;
 		}
 	}
 }
@@ -269,7 +324,11 @@ VCLAUSE(inverse, 300, 12000, 300000, "matrix has a zero or tiny entry on the dia
 	bool ref_ok		 = l_inverse(L, Xref);
 	long double cond = ref_ok ? l_frob(L) * l_frob(Xref) : 1e300L;
 	// exactly singular integer matrices: must stop with a diagnostic
-	if(g.integer && laplace(L) == 0.0L)
+	// (a duplicated non-integer row or column is singular over the reals, but no floating-point elimination is bound to meet an exact zero:
+	// (x/y)*y != x; neither side of the statement applies. A zero row or column is seen by every algorithm.)
+	if(g.exactly_singular && !g.zero_line)
+		throw Discard();
+	if((g.integer && laplace(L) == 0.0L) || g.zero_line)
 	{
 		c.cls("singular");
 		c.nt();
